@@ -38,3 +38,8 @@ VARIANTS += [
       rule='C12-DEADATTR', key='self.user_in_home'),
     M('C12', 'refactor-home-flag-local-alias', E(GT, "                        and (not (homedir and self.user_in_home)))", "                        and (not (homedir and getattr(self, 'user_in_home'))))"), kind='refactor'),
 ]
+
+VARIANTS += [
+    M('C12', 'exclusions-extended-by-characters', E(GT, "                    substrings.append(specific_string)", "                    substrings += specific_string"), rule='C12-WHOLESTR', key='substrings+=specific_string'),
+    M('C12', 'refactor-exclusions-extended-by-one-item-list', E(GT, "                    substrings.append(specific_string)", "                    substrings += [specific_string]"), kind='refactor'),
+]
